@@ -68,12 +68,16 @@ def run(ctx):
         params_mod = Obj("pyhf.parameters", {"T_a": ctor("a", True), "T_b": ctor("b", False), "T_c": ctor("c", True)})
         reqs = {"a": {"paramset_type": "T_a"}, "b": {"paramset_type": "T_b"}, "c": {"paramset_type": "T_c"}}
         out = Interp({"_reqs": reqs, "pyhf": Obj("pyhf", {"parameters": params_mod})}, {}, {}).run(A.strip_docstring(cps.node.body))
-        sets, aux, order = out
-        okk = isinstance(sets, dict) and list(sets) == ["a", "b", "c"] and [str(to_poly(x)) for x in aux] == ["AUX_a0", "AUX_a1", "AUX_c0", "AUX_c1"] and list(order) == ["a", "c"]
+        # the three results by what they ARE (that the caller unpacks them in the order they are returned is C01.R11's composition check)
+        parts = list(out) if isinstance(out, (tuple, list)) else []
+        sets = next((x for x in parts if isinstance(x, dict)), None)
+        order = next((x for x in parts if isinstance(x, (list, tuple)) and x and all(isinstance(y, str) for y in x)), [])
+        aux = next((x for x in parts if isinstance(x, (list, tuple)) and x is not order and not isinstance(x, dict)), [])
+        okk = len(parts) == 3 and isinstance(sets, dict) and list(sets) == ["a", "b", "c"] and [str(to_poly(x)) for x in aux] == ["AUX_a0", "AUX_a1", "AUX_c0", "AUX_c1"] and list(order) == ["a", "c"]
         if okk:
             ctx.holds(r1, f"{PDF}::_create_parameters_from_spec", "returns (sets, auxdata, auxdata_order); auxdata and order grow together for constrained sets only, in requirement order")
         else:
-            ctx.violated(r1, cps, "_create_parameters_from_spec", "auxiliary data and their order list are not built together from the constrained parameter sets (an auxiliary datum is paired with another parameter's constraint), or the return order changed while callers unpack positionally",
+            ctx.violated(r1, cps, "_create_parameters_from_spec", "auxiliary data and their order list are not built together from the constrained parameter sets (an auxiliary datum is paired with another parameter's constraint)",
                          expected="({a,b,c}, [AUX_a*, AUX_c*], ['a','c'])", found=f"({list(sets) if isinstance(sets, dict) else sets}, {[str(x) for x in aux] if isinstance(aux, list) else aux}, {order})")
     except (Undecided, TypeError, ValueError) as e:
         ctx.unrecognised(r1, cps, "_create_parameters_from_spec", f"not interpretable: {e}")
